@@ -15,4 +15,6 @@ func init() {
 	mut("C16", "snapshot-regardless-of-flag", "har/har.go", "\tif !logBody {\n\t\treturn pd, nil\n\t}\n", "", "C16.R5", "postData")
 	mut("C16", "pooled-message-view", "har/har.go", "\ttail    *Entry\n}\n\x00\tmv := messageview.New()\n\tif err := mv.SnapshotRequest(req); err != nil {", "\ttail    *Entry\n}\n\nvar viewPool = sync.Pool{New: func() interface{} { return messageview.New() }}\n\x00\tmv := viewPool.Get().(*messageview.MessageView)\n\tdefer viewPool.Put(mv)\n\tif err := mv.SnapshotRequest(req); err != nil {", "C16.R7", "postData")
 	twin("C16", "view-through-local-constructor-phi", "har/har.go", "\tmv := messageview.New()\n\tif err := mv.SnapshotRequest(req); err != nil {", "\tvar mv *messageview.MessageView\n\tif logBody {\n\t\tmv = messageview.New()\n\t} else {\n\t\tmv = messageview.New()\n\t}\n\tif err := mv.SnapshotRequest(req); err != nil {")
+	mut("C16", "gzip-first-member-only", "messageview/messageview.go", "\t\treturn gr, nil\n", "\t\tgr.Multistream(false)\n\t\treturn gr, nil\n", "C16.R1", "Multistream")
+	mut("C16", "skip-body-option-case-sensitive", "har/har.go", "l.bodyLogging = func(res *http.Response) bool {\n\t\t\trct := res.Header.Get(\"Content-Type\")\n\n\t\t\tfor _, ct := range cts {\n\t\t\t\tif strings.HasPrefix(strings.ToLower(rct), strings.ToLower(ct)) {\n\t\t\t\t\treturn false", "l.bodyLogging = func(res *http.Response) bool {\n\t\t\trct := res.Header.Get(\"Content-Type\")\n\n\t\t\tfor _, ct := range cts {\n\t\t\t\tif strings.HasPrefix(rct, strings.ToLower(ct)) {\n\t\t\t\t\treturn false", "C16.R5", "case-insensitively")
 }
